@@ -134,6 +134,14 @@ def run_one(script, clean, offset, nwatch, post, reentrant=''):
             for i, s in enumerate(list(ctl.subs)):
                 if not (i < len(completed) and completed[i]):
                     s.on_result.append(lambda: ctl.submit('K'))
+        cancelled = set()
+        if 'C' in reentrant:
+            # the caller gave up on the oldest outstanding command (d.cancel() / an expired addTimeout) before the loss
+            for i, s in enumerate(list(ctl.subs)):
+                if not (i < len(completed) and completed[i]) and s.raised is None and not s.rec.fires:
+                    s.rec.d.cancel()
+                    cancelled.add(i)
+                    break
         if ctl.wire.lost_seq is not None:
             viol.append(('connection-dropped', 'protocol-raised', '%r' % (w.errors()[:1],)))
         else:
@@ -158,6 +166,8 @@ def run_one(script, clean, offset, nwatch, post, reentrant=''):
                              'command #%d %r (%s) never fired' % (i, s.line, where)))
             elif n > 1:
                 viol.append(('fired-twice', where, 'command #%d fired %d times' % (i, n)))
+            elif i in cancelled:
+                pass        # resolved by its caller before the loss; all that is demanded is that it is left alone
             else:
                 k, v = s.rec.fires[0]
                 if i < len(completed) and completed[i]:
@@ -201,6 +211,7 @@ def run_task(param, acc):
     total = run_one(script, clean, 0, 0, ())['total']
     combos = [(nw, post, '') for nw in (0, 1, 2) for post in posts]
     combos += [(nw, post, re) for re in ('E', 'W', 'EW') for nw in (0, 1) for post in posts if len(post) <= 2]
+    combos += [(nw, post, re) for re in ('C', 'CE') for nw in (0, 1) for post in posts if len(post) <= 1]
     for offset in range(0, total + 1):
         for nwatch, post, reentrant in combos:
             if True:
